@@ -879,6 +879,32 @@ func (t *Tree) Compile(file string, args []string, out io.Writer) (err error) {
 			}
 		}
 
+		/* a rule that is first reached while a rule it starts with is still being
+		   analysed sees an incomplete first set: repeat the analysis, starting from
+		   the previous result, until the first sets of all rules are stable */
+		for range cache {
+			previous := slices.Clone(cache)
+			for i := range cache {
+				cache[i].reached = false
+			}
+			for element := range t.Iterator() {
+				if element.GetType() == TypeRule {
+					optimizeAlternates(element)
+					break
+				}
+			}
+			stable := true
+			for i := range cache {
+				if previous[i].consumes != cache[i].consumes || !previous[i].s.Equal(cache[i].s) {
+					stable = false
+					break
+				}
+			}
+			if stable {
+				break
+			}
+		}
+
 		for i := range cache {
 			cache[i].reached = false
 		}
